@@ -273,6 +273,7 @@ def worker(job):
         with guarded(part, 'C20 file lock', dict(scenario='filelock', seed=seed)):
             for k in range(max(4, nrandom // 2)):
                 asyncio.run(filelock_case(part, r, m))
+                asyncio.run(withwrite_case(part, r))
     finally:
         m.close()
     return part.result()
@@ -368,6 +369,65 @@ async def filelock_case(part, r, m):
         for x, (how, y) in zip(res, plan):
             if isinstance(x, TimeoutError) and how != 'impatient':
                 part.violation('monitor', f'FileLock: a writer timed out although every holder leaves (plan {plan})', case, signature='filelock-timeout')
+    finally:
+        backends.rmtree(d)
+
+
+async def withwrite_case(part, r):
+    """the lock file as the maildir control files use it (`FileWriteable.with_write`): whatever way the section is left — normally, by an
+    exception, by cancellation at a yield inside — the lock file is gone the moment the `async with` has been left"""
+    from pymap.backend.maildir.uidlist import UidList
+    from pymap.backend.maildir.subscriptions import Subscriptions
+    d = backends.scratch_dir('pymap-verif-ww-')
+    cls = r.choice([UidList, Subscriptions])
+    plan = [(r.choice(['ok', 'raise', 'cancel', 'touch-ok', 'touch-raise']), r.randint(0, 3)) for _ in range(r.choice([1, 1, 2]))]
+    case = dict(scenario='with_write', cls=cls.__name__, plan=plan)
+    left = []
+    holders = []
+    try:
+        async def section(i, how, yields):
+            try:
+                async with cls.with_write(d) as obj:
+                    holders.append(i)
+                    if len(holders) > 1:
+                        left.append(('overlap', list(holders)))
+                    try:
+                        if how.startswith('touch'):
+                            if cls is Subscriptions:
+                                obj.add('x%d' % i)
+                            else:
+                                obj.next_uid += 1
+                        for _ in range(yields):
+                            await asyncio.sleep(0)
+                        if how.endswith('raise'):
+                            raise KeyError('boom')
+                        if how == 'cancel':
+                            await asyncio.sleep(3600)
+                    finally:
+                        holders.remove(i)
+            finally:
+                # the very next statement after the section
+                locks = [f for f in os.listdir(d) if f.endswith('.lock')]
+                if locks and not holders:
+                    left.append(('lock-left', i, how, locks))
+        tasks = [asyncio.create_task(section(i, how, y)) for i, (how, y) in enumerate(plan)]
+        loop = asyncio.get_running_loop()
+        t0 = loop.time()
+        while loop.time() - t0 < 20.0:      # waiters retry on a real clock (10 ms .. 1 s)
+            await asyncio.sleep(0.002)
+            for i, (t, (how, y)) in enumerate(zip(tasks, plan)):
+                if how == 'cancel' and not t.done() and i in holders:
+                    t.cancel()
+            if all(t.done() for t in tasks):
+                break
+        for t in tasks:
+            if not t.done():
+                t.cancel()
+        await asyncio.gather(*tasks, return_exceptions=True)
+        part.case(key='ww:' + cls.__name__ + repr(plan), nontrivial=any(h not in ('ok', 'touch-ok') for h, _ in plan))
+        part.stat('with-write-cases')
+        for e in left:
+            part.violation('monitor', f'with_write({cls.__name__}): {e} with plan {plan}', case, signature='withwrite-' + e[0])
     finally:
         backends.rmtree(d)
 
